@@ -348,7 +348,7 @@ Proof.
   intros tp o g mk ob T g' W L M H. unfold marker_targets in H.
   destruct (do_read o g mk) as [[c|] g1] eqn:E.
   - pose proof (do_read_store _ _ _ _ _ E) as S. apply do_read_some in E.
-    assert (FB: forall k, marker_denotes mk ob k -> In k (marker_fallback (basename mk))).
+    assert (FB: forall k, marker_denotes mk ob k -> In k (marker_fallback mk (basename mk))).
     { intros k D. rewrite marker_fallback_covers. unfold marker_denotes in D.
       destruct (body ob) as [| | |[t|]| | | |? ?] eqn:B; auto. destruct (nonempty t) eqn:N; auto. subst k. eapply W; eauto. }
     destruct E as [->|[ob' [L' B']]].
